@@ -286,7 +286,9 @@ func (svd SigVerificationDecorator) AnteHandle(ctx sdk.Context, tx sdk.Tx, simul
 			if err != nil {
 				return ctx, err
 			}
-			pubKey.VerifySignature(bytesToSign, data.Signature)
+			if !pubKey.VerifySignature(bytesToSign, data.Signature) {
+				return ctx, sdkerrors.ErrUnauthorized.Wrapf("signature verification failed for oracle create-price tx; please verify chain-id (%s)", ctx.ChainID())
+			}
 		}
 
 		return next(ctx, tx, simulate)
